@@ -6,6 +6,7 @@ package main
 import (
 	"fmt"
 	"math"
+	"os"
 	"strconv"
 	"strings"
 
@@ -277,6 +278,35 @@ func main() {
 			tag = "multi"
 		}
 		scaleCase(vals, cls, tag)
+	}
+	// many distinct units through one process: the class of a unit is a function of its own text, whatever
+	// was classified before (a cache keyed by too little shows up once enough distinct strings have passed).
+	// The expected class is known by construction: "<w><i>-ns/op" has no bytes token, "<w><i>-B/op" has one.
+	if sh, _ := strconv.Atoi(os.Getenv("VERIF_SHARD")); sh == 0 {
+		nSweep := hx.N(200000, 1500000)
+		bad, first := 0, "-"
+		for _, w := range []string{"shard", "heap"} {
+			for i := 0; i < nSweep/2; i++ {
+				ud := w + strconv.Itoa(i) + "-ns/op"
+				ub := w + strconv.Itoa(i) + "-B/op"
+				if benchunit.ClassOf(ud) != benchunit.Decimal {
+					bad++
+					if first == "-" {
+						first = hx.HexS(ud)
+					}
+				}
+				if benchunit.ClassOf(ub) != benchunit.Binary {
+					bad++
+					if first == "-" {
+						first = hx.HexS(ub)
+					}
+				}
+			}
+		}
+		hx.Printf("case %d kind=sweep n=%d tag=manyunits\n", id, 2*nSweep)
+		hx.Printf("obs %d bad=%d first=%s\n", id, bad, first)
+		hx.Printf("sobs %d bad=%d first=%s\n", id, bad, first)
+		id++
 	}
 	// classof
 	m := hx.N(3000, 60000)
